@@ -213,6 +213,23 @@ theorem tokOK_ukText (hi : Nat → Bool) (uk : UnlockKey) (h : ∀ c ∈ ukText 
     rw [hq] at hend
     exact trimSpace_id c cs (hstart c cs hq) hend
 
+/-- a key whose algorithm specifier is alphanumeric (so printed unquoted) is always a safe token -/
+theorem ukText_safe_of_alnum (hi : Nat → Bool) (k : UnlockKey) (h : (trimZeros k.alg).all isAlnum = true) :
+    ∀ c ∈ ukText hi k, isDelim c = false := by
+  intro c hc
+  unfold ukText specString at hc
+  simp only [h, if_true] at hc
+  simp at hc
+  rcases hc with hc | rfl | hc
+  · have : isAlnum c = true := by
+      have := List.all_eq_true.mp h c hc
+      exact this
+    simp [isAlnum] at this
+    exact (byte_plain (by omega)).1
+  · decide
+  · exact (hex_plain (hexEnc_isHex k.key c hc)).1
+
+
 /-! ## the parser's leaf readers on printed tokens -/
 
 section
@@ -235,11 +252,100 @@ theorem parseHexTok_ok (k : List UInt8) (hk : k.length = 32) (d : UInt8) (r : Tx
   simp only [parseHexTok, nextToken_tok hcfg _ d r (tokOK_hex0x k) hd he]
   simp [hex0x, hexDec_hexEnc, hexEnc_length, hk]
 
+omit hcfg in
+theorem quotedPrefix_quote (hi : Nat → Bool) (b tail : Txt) :
+    quotedPrefix (quote hi b ++ tail) = some (quote hi b, tail) := by
+  have e : quote hi b ++ tail = 34 :: (quoteBody hi b.length b ++ 34 :: tail) := by simp [quote]
+  rw [e]
+  simp only [quotedPrefix]
+  rw [unquoteLoop_quoteBody hi b.length b (Nat.le_refl _) tail [] _ (by simp)]
+  simp only [Option.some.injEq, Prod.mk.injEq, and_true]
+  rw [← e]
+  have : (quote hi b ++ tail).length - tail.length = (quote hi b).length := by simp
+  rw [this, List.take_left']
+  rfl
+
+omit hcfg in
+theorem quotedPrefix_none (c : UInt8) (t : Txt) (h : c ≠ 34) : quotedPrefix (c :: t) = none := by
+  unfold quotedPrefix
+  split
+  · rename_i rest heq
+    simp at heq
+    exact absurd heq.1 h
+  · rfl
+
+/-- the unlock-key reader on a printed key.  With the quoted-prefix step the printed key
+    is always read back; without it the key text must be free of delimiters. -/
 theorem parseKeyTok_ok (hi : Nat → Bool) (uk : UnlockKey) (hlen : uk.alg.length = cfg.specLen)
-    (hsafe : ∀ c ∈ ukText hi uk, isDelim c = false) (d : UInt8) (r : Txt)
+    (hq : cfg.quotedKeys = true ∨ ∀ c ∈ ukText hi uk, isDelim c = false) (d : UInt8) (r : Txt)
     (hd : isDelim d = true) (he : EndsOK (d :: r)) :
     parseKeyTok cfg ⟨ukText hi uk ++ d :: r, false⟩ = (uk, ⟨d :: r, false⟩) := by
-  simp [parseKeyTok, nextToken_tok hcfg _ d r (tokOK_ukText hi uk hsafe) hd he, parseUk_ukText hi _ uk hlen]
+  have old : (∀ c ∈ ukText hi uk, isDelim c = false) →
+      (match nextToken cfg ⟨ukText hi uk ++ d :: r, false⟩ with
+        | (t, st) => if st.err = true then ((⟨[], []⟩ : UnlockKey), st)
+          else match parseUk cfg.specLen ([] ++ t) with
+            | some uk => (uk, st)
+            | none => (⟨[], []⟩, { st with err := true })) = (uk, ⟨d :: r, false⟩) := by
+    intro hsafe
+    simp [nextToken_tok hcfg _ d r (tokOK_ukText hi uk hsafe) hd he, parseUk_ukText hi _ uk hlen]
+  by_cases hflag : cfg.quotedKeys = true
+  · have hE : EndsOK (ukText hi uk ++ d :: r) := EndsOK.append_left _ he (by simp)
+    by_cases hal : (trimZeros uk.alg).all isAlnum = true
+    · -- unquoted specifier: no quoted prefix, and the token is delimiter-free by itself
+      have hsafe := ukText_safe_of_alnum hi uk hal
+      obtain ⟨c, cs, hc⟩ : ∃ c cs, ukText hi uk = c :: cs := by
+        cases h : ukText hi uk with
+        | nil => simp [ukText] at h
+        | cons c cs => exact ⟨c, cs, rfl⟩
+      have hsp := (tokOK_ukText hi uk hsafe).start c cs hc
+      have hne : c ≠ 34 := by
+        intro e
+        have hc' := hc
+        unfold ukText specString at hc'
+        simp only [hal, if_true] at hc'
+        cases hb : trimZeros uk.alg with
+        | nil => rw [hb] at hc'; simp at hc'; rw [e] at hc'; exact absurd hc'.1 (by decide)
+        | cons x xs =>
+          rw [hb] at hc' hal; simp at hc' hal
+          have := isAlnum_ne_quote hal.1
+          rw [hc'.1, e] at this; exact this rfl
+      have htrim : trimSpace (ukText hi uk ++ d :: r) = ukText hi uk ++ d :: r := by
+        rw [hc] at hE ⊢; exact trimSpace_id c _ hsp hE
+      have hnone : quotedPrefix (ukText hi uk ++ d :: r) = none := by
+        rw [hc]; exact quotedPrefix_none c _ hne
+      simp only [parseKeyTok, hflag, if_true, htrim, Bool.false_eq_true, if_false, hnone]
+      exact old hsafe
+    · -- quoted specifier: the quoted prefix is lifted off, the rest is ":<hex>"
+      have hspec : specString hi uk.alg = quote hi (trimZeros uk.alg) := by
+        unfold specString; simp only [hal]; rfl
+      have e : ukText hi uk ++ d :: r = quote hi (trimZeros uk.alg) ++ ((58 :: hexEnc uk.key) ++ d :: r) := by
+        simp [ukText, hspec]
+      have htrim : trimSpace (ukText hi uk ++ d :: r) = ukText hi uk ++ d :: r := by
+        have hcs : ukText hi uk ++ d :: r
+            = 34 :: (quoteBody hi (trimZeros uk.alg).length (trimZeros uk.alg) ++ 34 :: (58 :: hexEnc uk.key ++ d :: r)) := by
+          rw [e]; simp [quote]
+        rw [hcs] at hE ⊢; exact trimSpace_id 34 _ (by decide) hE
+      have htok : TokOK (58 :: hexEnc uk.key) := by
+        apply tokOK_of_nospace
+        · intro c hc; simp at hc
+          rcases hc with rfl | hc
+          · decide
+          · exact (hex_plain (hexEnc_isHex _ c hc)).1
+        · intro c hc; simp at hc
+          rcases hc with rfl | hc
+          · decide
+          · exact (hex_plain (hexEnc_isHex _ c hc)).2
+      have hfin : quote hi (trimZeros uk.alg) ++ 58 :: hexEnc uk.key = ukText hi uk := by simp [ukText, hspec]
+      simp only [parseKeyTok, hflag, if_true, htrim, Bool.false_eq_true, if_false]
+      rw [e, quotedPrefix_quote]
+      simp only [nextToken_tok hcfg _ d r htok hd he, Bool.false_eq_true, if_false, hfin,
+        parseUk_ukText hi _ uk hlen]
+  · have hsafe : ∀ c ∈ ukText hi uk, isDelim c = false := by
+      rcases hq with h | h
+      · exact absurd h hflag
+      · exact h
+    simp only [parseKeyTok, hflag, Bool.false_eq_true, if_false]
+    exact old hsafe
 
 end
 
@@ -306,20 +412,28 @@ structure CfgStd (cfg : Cfg) : Prop where
 theorem ukText_ne_nil (hi : Nat → Bool) (k : UnlockKey) : ukText hi k ≠ [] := by
   unfold ukText; simp
 
-theorem ukText_head_not_close (hi : Nat → Bool) (k : UnlockKey) (h : ∀ c ∈ ukText hi k, isDelim c = false) :
+theorem ukText_head_not_close (hi : Nat → Bool) (k : UnlockKey) :
     ∃ c cs, ukText hi k = c :: cs ∧ c ≠ 93 ∧ isSpace c = false := by
-  match hq : ukText hi k with
-  | [] => exact absurd hq (ukText_ne_nil hi k)
-  | c :: cs =>
-    refine ⟨c, cs, rfl, ?_, (tokOK_ukText hi k h).start c cs hq⟩
-    intro e
-    have := h c (by rw [hq]; simp)
-    rw [e] at this
-    exact absurd this (by decide)
+  by_cases hal : (trimZeros k.alg).all isAlnum = true
+  · have h := ukText_safe_of_alnum hi k hal
+    match hq : ukText hi k with
+    | [] => exact absurd hq (ukText_ne_nil hi k)
+    | c :: cs =>
+      refine ⟨c, cs, rfl, ?_, (tokOK_ukText hi k h).start c cs hq⟩
+      intro e
+      have := h c (by rw [hq]; simp)
+      rw [e] at this
+      exact absurd this (by decide)
+  · refine ⟨34, quoteBody hi (trimZeros k.alg).length (trimZeros k.alg) ++ 34 :: 58 :: hexEnc k.key, ?_, by decide, by decide⟩
+    unfold ukText specString
+    simp only [hal]
+    simp [quote]
+
 
 theorem parseKeys_ok (hcfg : cfg.delims = stdDelims) (hi : Nat → Bool) :
     ∀ (ks : List UnlockKey) (fuel : Nat) (r : Txt), ks.length + 1 ≤ fuel →
-    (∀ k ∈ ks, k.alg.length = cfg.specLen) → (∀ k ∈ ks, ∀ c ∈ ukText hi k, isDelim c = false) →
+    (∀ k ∈ ks, k.alg.length = cfg.specLen) →
+    (cfg.quotedKeys = true ∨ ∀ k ∈ ks, ∀ c ∈ ukText hi k, isDelim c = false) →
     EndsOK (93 :: r) →
     parseKeys cfg fuel ⟨joinKeys hi ks ++ 93 :: r, false⟩ = (ks, ⟨93 :: r, false⟩) := by
   intro ks
@@ -331,16 +445,17 @@ theorem parseKeys_ok (hcfg : cfg.delims = stdDelims) (hi : Nat → Bool) :
   | cons k ks ih =>
     intro fuel r hf hlen hsafe he
     obtain ⟨f, rfl⟩ : ∃ f, fuel = f + 1 := ⟨fuel - 1, by omega⟩
-    obtain ⟨c, cs, hc, hne, hsp⟩ := ukText_head_not_close hi k (hsafe k (by simp))
+    obtain ⟨c, cs, hc, hne, hsp⟩ := ukText_head_not_close hi k
     have hk1 := hlen k (by simp)
-    have hk2 := hsafe k (by simp)
+    have hk2 : cfg.quotedKeys = true ∨ ∀ c ∈ ukText hi k, isDelim c = false :=
+      hsafe.imp id (fun h => h k (by simp))
     match ks, ih with
     | [], ih =>
       have e0 : joinKeys hi [k] ++ 93 :: r = ukText hi k ++ 93 :: r := rfl
       have hE : EndsOK (ukText hi k ++ 93 :: r) := EndsOK.append_left _ he (by simp)
       have hp : peek ⟨ukText hi k ++ 93 :: r, false⟩ = (c, ⟨ukText hi k ++ 93 :: r, false⟩) := by
         rw [hc] at hE ⊢; exact peek_ok c _ hsp hE
-      have hnil := ih f r (by simp at hf ⊢; omega) (by simp) (by simp) he
+      have hnil := ih f r (by simp at hf ⊢; omega) (by simp) (Or.inr (by simp)) he
       simp only [joinKeys, List.nil_append] at hnil
       rw [e0]
       simp only [parseKeys, Bool.false_eq_true, if_false, hp, hne,
@@ -356,7 +471,7 @@ theorem parseKeys_ok (hcfg : cfg.delims = stdDelims) (hi : Nat → Bool) :
       have hp : peek ⟨ukText hi k ++ 44 :: (joinKeys hi (k' :: ks') ++ 93 :: r), false⟩
           = (c, ⟨ukText hi k ++ 44 :: (joinKeys hi (k' :: ks') ++ 93 :: r), false⟩) := by
         rw [hc] at hE ⊢; exact peek_ok c _ hsp hE
-      have hrec := ih f r (by simp at hf ⊢; omega) (fun x hx => hlen x (by simp [hx])) (fun x hx => hsafe x (by simp [hx])) he
+      have hrec := ih f r (by simp at hf ⊢; omega) (fun x hx => hlen x (by simp [hx])) (hsafe.imp id (fun h x hx => h x (by simp [hx]))) he
       rw [e0]
       simp only [parseKeys, Bool.false_eq_true, if_false, hp, hne,
         parseKeyTok_ok hcfg hi k hk1 hk2 44 _ (by decide) he2, peek_ok 44 _ (by decide) he2,
@@ -400,7 +515,8 @@ variable (hc : CfgStd cfg) (hi : Nat → Bool)
 include hc
 
 mutual
-  theorem parseSP_str : ∀ (p : Policy) (f : Nat) (rest : Txt), p.WF → p.SigFits cfg.ucSigBits → p.KeysSafe hi →
+  theorem parseSP_str : ∀ (p : Policy) (f : Nat) (rest : Txt), p.WF → p.SigFits cfg.ucSigBits →
+      (cfg.quotedKeys = true ∨ p.KeysSafe hi) →
       p.size ≤ f → EndsOK rest →
       parseSP cfg f ⟨Policy.str hi p ++ rest, false⟩ = (p, ⟨rest, false⟩)
     | .above h, f, rest, hwf, _, _, hf, he => by
@@ -488,7 +604,8 @@ mutual
         hn.1, hn.2.1, hn.2.2.1, hn.2.2.2.1, if_false, if_true, hc.thresh,
         parseIntTok_ok hc.delims 8 n hwf.1 44 _ (by decide) e2, consume_ok 44 _ (by decide) e2,
         consume_ok 91 _ (by decide) e3, hlist, consume_ok 93 _ (by decide) e4, consume_ok 41 rest (by decide) e41]
-  theorem parseSPList_str : ∀ (ps : PolicyList) (f : Nat) (r : Txt), ps.WF → ps.SigFits cfg.ucSigBits → ps.KeysSafe hi →
+  theorem parseSPList_str : ∀ (ps : PolicyList) (f : Nat) (r : Txt), ps.WF → ps.SigFits cfg.ucSigBits →
+      (cfg.quotedKeys = true ∨ ps.KeysSafe hi) →
       ps.size ≤ f → EndsOK (93 :: r) →
       parseSPList cfg f ⟨PolicyList.str hi ps ++ 93 :: r, false⟩ = (ps, ⟨93 :: r, false⟩)
     | .nil, f, r, _, _, _, hf, he => by
@@ -500,8 +617,8 @@ mutual
       have hE : EndsOK (Policy.str hi p ++ 93 :: r) := EndsOK.append_left _ he (by simp)
       have hp : peek ⟨Policy.str hi p ++ 93 :: r, false⟩ = (c, ⟨Policy.str hi p ++ 93 :: r, false⟩) := by
         rw [hcs] at hE ⊢; exact peek_ok c _ hsp hE
-      have h1 := parseSP_str p f' (93 :: r) hwf.1 hsig.1 hkeys.1 (by simp [PolicyList.size] at hf; omega) he
-      have h2 := parseSPList_str .nil f' r trivial trivial trivial (by simp [PolicyList.size] at hf ⊢; omega) he
+      have h1 := parseSP_str p f' (93 :: r) hwf.1 hsig.1 (hkeys.imp id (·.1)) (by simp [PolicyList.size] at hf; omega) he
+      have h2 := parseSPList_str .nil f' r trivial trivial (Or.inr trivial) (by simp [PolicyList.size] at hf ⊢; omega) he
       simp only [PolicyList.str, List.nil_append] at h2
       have e : PolicyList.str hi (.cons p .nil) ++ 93 :: r = Policy.str hi p ++ 93 :: r := by simp [PolicyList.str]
       rw [e]
@@ -516,9 +633,9 @@ mutual
       have hp : peek ⟨Policy.str hi p ++ 44 :: (PolicyList.str hi (.cons p' ps') ++ 93 :: r), false⟩
           = (c, ⟨Policy.str hi p ++ 44 :: (PolicyList.str hi (.cons p' ps') ++ 93 :: r), false⟩) := by
         rw [hcs] at hE ⊢; exact peek_ok c _ hsp hE
-      have h1 := parseSP_str p f' (44 :: (PolicyList.str hi (.cons p' ps') ++ 93 :: r)) hwf.1 hsig.1 hkeys.1
+      have h1 := parseSP_str p f' (44 :: (PolicyList.str hi (.cons p' ps') ++ 93 :: r)) hwf.1 hsig.1 (hkeys.imp id (·.1))
         (by simp [PolicyList.size] at hf; omega) he2
-      have h2 := parseSPList_str (.cons p' ps') f' r hwf.2 hsig.2 hkeys.2 (by simp [PolicyList.size] at hf ⊢; omega) he
+      have h2 := parseSPList_str (.cons p' ps') f' r hwf.2 hsig.2 (hkeys.imp id (·.2)) (by simp [PolicyList.size] at hf ⊢; omega) he
       have e : PolicyList.str hi (.cons p (.cons p' ps')) ++ 93 :: r
           = Policy.str hi p ++ 44 :: (PolicyList.str hi (.cons p' ps') ++ 93 :: r) := by simp [PolicyList.str]
       rw [e]
@@ -561,7 +678,7 @@ end
 
 /-- `ParseSpendPolicy(p.String()) = p` under the stated side conditions -/
 theorem parsePolicy_str (hc : CfgStd cfg) (hi : Nat → Bool) (p : Policy) (hwf : p.WF)
-    (hsig : p.SigFits cfg.ucSigBits) (hkeys : p.KeysSafe hi) :
+    (hsig : p.SigFits cfg.ucSigBits) (hkeys : cfg.quotedKeys = true ∨ p.KeysSafe hi) :
     parsePolicy cfg (Policy.str hi p) = some p := by
   have hsz := size_le_str hi p
   have := parseSP_str hc hi p ((Policy.str hi p).length + 1) [] hwf hsig hkeys (by omega) (Or.inl rfl)
@@ -581,21 +698,5 @@ mutual
     | .nil, _ => trivial
     | .cons p ps, h => ⟨sigFits_of_wf p h.1, sigFitsL_of_wf ps h.2⟩
 end
-
-/-- a key whose algorithm specifier is alphanumeric (so printed unquoted) is always a safe token -/
-theorem ukText_safe_of_alnum (hi : Nat → Bool) (k : UnlockKey) (h : (trimZeros k.alg).all isAlnum = true) :
-    ∀ c ∈ ukText hi k, isDelim c = false := by
-  intro c hc
-  unfold ukText specString at hc
-  simp only [h, if_true] at hc
-  simp at hc
-  rcases hc with hc | rfl | hc
-  · have : isAlnum c = true := by
-      have := List.all_eq_true.mp h c hc
-      exact this
-    simp [isAlnum] at this
-    exact (byte_plain (by omega)).1
-  · decide
-  · exact (hex_plain (hexEnc_isHex k.key c hc)).1
 
 end Sia.Text
